@@ -569,6 +569,117 @@ example : dohServerName true true id (fun _ => true) [50, 48, 48, 49, 58, 100, 9
 example : dohEndpointHost true true id (fun _ => true) [50, 48, 48, 49, 58, 100, 98, 56, 58, 58, 49]
     = [91, 50, 48, 48, 49, 58, 100, 98, 56, 58, 58, 49, 93] := by decide
 
+
+/-! ## SOCKS5 and a configured bootstrap server
+
+A stream upstream behind a SOCKS5 proxy asks the proxy to CONNECT to exactly
+its dial target - the host NAME as written when the host is a name - whatever
+a configured bootstrap server would answer for that name. -/
+
+def socksAsWritten : Bool := Gen.Facts.c18Socks5ConnectsToTarget == some true
+
+theorem socks_guard : Gen.Facts.c18Socks5ConnectsToTarget = some true := rfl
+
+/-- **CONNECT target = dial target**, for every bootstrap answer and whatever the unknown part is. -/
+theorem socks5_connect_target (other : Bytes × UInt16 → Option Bytes → Bytes × UInt16)
+    (resolved : Option Bytes) (t : Bytes × UInt16) :
+    connectTarget socksAsWritten other resolved t = t := by
+  have e : socksAsWritten = true := rfl
+  simp [connectTarget, e]
+
+/-- **Host name behind a proxy, bootstrap configured**: `h` / `h:p` in the URL or
+`h:p` as dial_addr - the proxy is asked for the name `h` and the port written
+(scheme default when omitted), never for an address the bootstrap server gave. -/
+theorem socks5_host_name (C : SplitContract split) (h : Bytes) (hh : NoSpecial h) (d : UInt16)
+    (other : Bytes × UInt16 → Option Bytes → Bytes × UInt16) (resolved : Option Bytes) :
+    (target split parse h [] d).map (connectTarget socksAsWritten other resolved) = .ok (h, d) ∧
+    (∀ p n, NoSpecial p → parse p = some n → n ≠ 0 →
+      (target split parse (h ++ colon :: p) [] d).map (connectTarget socksAsWritten other resolved) = .ok (h, n)) ∧
+    (∀ u p n, NoSpecial p → parse p = some n → n ≠ 0 →
+      (target split parse u (h ++ colon :: p) d).map (connectTarget socksAsWritten other resolved) = .ok (h, n)) ∧
+    (h ≠ [] → ∀ u, (target split parse u h d).map (connectTarget socksAsWritten other resolved) = .ok (h, d)) := by
+  refine ⟨?_, ?_, ?_, ?_⟩
+  · rw [plain_no_port parse C h hh d]
+    simp [Except.map, socks5_connect_target]
+  · intro p n hp hn hz
+    rw [(plain_with_port parse C h p hh hp d).1 n hn hz]
+    simp [Except.map, socks5_connect_target]
+  · intro u p n hp hn hz
+    rw [(dial_addr_forms parse C u d).2.2.1 h p n hh hp hn hz]
+    simp [Except.map, socks5_connect_target]
+  · intro hne u
+    rw [(dial_addr_forms parse C u d).1 h hne hh]
+    simp [Except.map, socks5_connect_target]
+
+/-- Non-vacuity: a dialer that runs the bootstrap decision tree before the proxy
+asks the proxy for the bootstrap server's answer instead of the name. -/
+example :
+    let viaBootstrap : Bytes × UInt16 → Option Bytes → Bytes × UInt16 := fun t r =>
+      match r with
+      | some ip => (ip, t.2)
+      | none => t
+    connectTarget false viaBootstrap (some [49, 50, 55, 46, 48, 46, 48, 46, 57]) ([100, 110, 115], 853)
+      = ([49, 50, 55, 46, 48, 46, 48, 46, 57], 853) := by decide
+
+/-! ## Upstreams of a forward plugin
+
+Position `i` of the upstream list of a forward built from configuration dials
+the target of entry `i`'s own `addr` / `dial_addr` - whatever the other entries
+are (the same `addr` with another `dial_addr` in particular). -/
+
+def fwdPerEntry : Bool := Gen.Facts.c18FwdUpstreamPerEntry == some true
+
+theorem fwd_guard : Gen.Facts.c18FwdUpstreamPerEntry = some true := rfl
+
+theorem fwdUpstreams_perEntry (other : List FwdCfg → FwdCfg → FwdCfg) (made cfgs : List FwdCfg) :
+    fwdUpstreams true other made cfgs = cfgs := by
+  induction cfgs generalizing made with
+  | nil => rfl
+  | cons c rest ih => simp [fwdUpstreams, ih]
+
+/-- **Every entry dials its own target**: for all entries before and after it. -/
+theorem forward_entry_own_target (other : List FwdCfg → FwdCfg → FwdCfg) (made before after : List FwdCfg)
+    (u a : Bytes) (d : UInt16) :
+    ((fwdUpstreams fwdPerEntry other made (before ++ (u, a, d) :: after))[before.length]?).map
+        (fun c => target split parse c.1 c.2.1 c.2.2) = some (target split parse u a d) := by
+  have e : fwdPerEntry = true := rfl
+  rw [e, fwdUpstreams_perEntry]
+  simp
+
+/-- **dial_addr of an entry is honoured** in its forms host / IP, `host:port`,
+`[IPv6]:port`, for every `addr` (shared with other entries or not). -/
+theorem forward_entry_dial_addr (C : SplitContract split) (other : List FwdCfg → FwdCfg → FwdCfg)
+    (made before after : List FwdCfg) (u : Bytes) (d : UInt16) :
+    (∀ h, h ≠ [] → NoSpecial h →
+      ((fwdUpstreams fwdPerEntry other made (before ++ (u, h, d) :: after))[before.length]?).map
+        (fun c => target split parse c.1 c.2.1 c.2.2) = some (.ok (h, d))) ∧
+    (∀ h p n, NoSpecial h → NoSpecial p → parse p = some n → n ≠ 0 →
+      ((fwdUpstreams fwdPerEntry other made (before ++ (u, h ++ colon :: p, d) :: after))[before.length]?).map
+        (fun c => target split parse c.1 c.2.1 c.2.2) = some (.ok (h, n))) ∧
+    (∀ v p n, NoBracket v → NoSpecial p → parse p = some n → n ≠ 0 →
+      ((fwdUpstreams fwdPerEntry other made (before ++ (u, lbr :: v ++ rbr :: colon :: p, d) :: after))[before.length]?).map
+        (fun c => target split parse c.1 c.2.1 c.2.2) = some (.ok (v, n))) := by
+  have f := dial_addr_forms parse C u d
+  refine ⟨?_, ?_, ?_⟩
+  · intro h hne hh
+    rw [forward_entry_own_target, f.1 h hne hh]
+  · intro h p n hh hp hn hz
+    rw [forward_entry_own_target, f.2.2.1 h p n hh hp hn hz]
+  · intro v p n hv hp hn hz
+    rw [forward_entry_own_target, f.2.2.2 v p n hv hp hn hz]
+
+/-- Non-vacuity: a forward that reuses the upstream made for an earlier entry
+with the same `addr` sends the second entry's queries to the first one's
+dial_addr. -/
+example :
+    let shared : List FwdCfg → FwdCfg → FwdCfg := fun made c =>
+      match made.find? (fun m => m.1 == c.1) with
+      | some m => m
+      | none => c
+    (fwdUpstreams false shared [] [([100, 110, 115], [56, 46, 56, 46, 56, 46, 56], 443), ([100, 110, 115], [56, 46, 56, 46, 52, 46, 52], 443)]).map
+        (fun c => target splitHostPort parseUint16 c.1 c.2.1 c.2.2)
+      = [.ok ([56, 46, 56, 46, 56, 46, 56], 443), .ok ([56, 46, 56, 46, 56, 46, 56], 443)] := by rfl
+
 /-! Non-vacuity: the executable model of SplitHostPort on one instance of every
 contract clause, and the targets of concrete addresses. "2001:db8::1" etc. -/
 -- byte strings below are the UTF-8 codes of the quoted text
